@@ -83,14 +83,31 @@ func serverPrograms() []program {
 					continue
 				}
 				name := fmt.Sprintf("servers/%s/%s||%s", se.Name, gm.MethodName, gm.MethodName)
-				ps = append(ps, program{name, serverBody(se, gm, md)})
+				ps = append(ps, program{name, serverBody(se, gm, md, false)})
+				// the same two calls with requests that name the device and nothing else (the resource message left
+				// out, legal on the wire): whatever a handler puts in its place is the call's own, too
+				if hasResourceField(md.Input()) {
+					ps = append(ps, program{name + " (requests without their resource message)", serverBody(se, gm, md, true)})
+				}
 			}
 		}
 	}
 	return ps
 }
 
-func serverBody(se reg.ServerEntry, gm grpc.MethodDesc, md protoreflect.MethodDescriptor) func() {
+// hasResourceField: the request has a message-typed field of the API's own (not a mask, not a well-known type)
+func hasResourceField(in protoreflect.MessageDescriptor) bool {
+	fds := in.Fields()
+	for i := 0; i < fds.Len(); i++ {
+		fd := fds.Get(i)
+		if fd.Kind() == protoreflect.MessageKind && !fd.IsList() && !fd.IsMap() && !strings.HasPrefix(string(fd.Message().FullName()), "google.protobuf") {
+			return true
+		}
+	}
+	return false
+}
+
+func serverBody(se reg.ServerEntry, gm grpc.MethodDesc, md protoreflect.MethodDescriptor, bare bool) func() {
 	return func() {
 		server := se.New()
 		call := func(seed int) func() {
@@ -100,7 +117,9 @@ func serverBody(se reg.ServerEntry, gm grpc.MethodDesc, md protoreflect.MethodDe
 					return
 				}
 				req := mt.New()
-				srvFill(req, seed, 2)
+				if !bare {
+					srvFill(req, seed, 2)
+				}
 				if fd := req.Descriptor().Fields().ByName("name"); fd != nil && fd.Kind() == protoreflect.StringKind {
 					req.Set(fd, protoreflect.ValueOfString(srvDev))
 				}
